@@ -147,6 +147,9 @@ func (tc *TypeConverter) TypeToExpr(t types.Type) ast.Expr {
 	switch typ := t.(type) {
 	case *types.Named:
 		return tc.typeNameToExpr(typ.Obj(), typ.TypeArgs())
+	case *types.Alias:
+		// an alias is spelled by its own name, like any other declared type
+		return tc.typeNameToExpr(typ.Obj(), typ.TypeArgs())
 	case *types.Pointer:
 		return &ast.StarExpr{X: tc.TypeToExpr(typ.Elem())}
 	case *types.Slice:
